@@ -848,6 +848,10 @@ class Interp:
             raise Unsupported(f"iteration over symbolic {v!r}")
         if isinstance(v, (PClass, PFunc, PBound)) or v is None:
             raise PyRaise(TypeError(f"'{self.type_name(v)}' object is not iterable"))
+        if hasattr(v, "__next__") and not isinstance(v, (list, tuple, dict, set, str, bytes)):
+            # a native iterator (enumerate / islice / zip / map over a generator of the interpreted program): consumed lazily, element by element, so
+            # that the producer's side effects interleave with the loop body as they do in CPython
+            return v
         try:
             return list(v)
         except TypeError as e:
